@@ -838,10 +838,22 @@ def respell_cases(draw):
             items.insert(j, items.pop(i))
     if neg == "cname":
         cand = [n for n in zc["nodes"] if n["kind"] in ("regular", "cname", "apex", "deleg") and n["sets"]]
-        node = draw(st.sampled_from(cand))
+        cn = [n for n in cand if n["kind"] == "cname"]
+        if not cn and G.wire_len(origin) < 200:
+            # no CNAME node in this zone: add one, so that "other data joins a CNAME" is as frequent
+            # as "a CNAME joins other data"
+            fresh = {"kind": "cname", "owner": [b"cn-extra"] + origin, "sets": [1]}
+            rec0 = draw(_record("CNAME", {"origin": origin}, True))
+            items.insert(draw(st.integers(0, len(items))),
+                         {"k": "rr", "owner": G.hexl(fresh["owner"]), "ttl": draw(st.sampled_from(ttls)), "t": "CNAME", "c": 5,
+                          "w": rec0["wire"], "p": draw(_plan)})
+            cn = [fresh]
+        node = draw(st.sampled_from(cn)) if cn and draw(st.integers(0, 2)) != 0 else draw(st.sampled_from(cand))
         owner = [G.flip_case(draw, l) for l in node["owner"][: len(node["owner"]) - len(origin)]] + origin
         if node["kind"] == "cname":
-            tname = "TXT"
+            # any type outside the documented neutral set (NSEC, NSEC3, KEY) -- the near misses of that
+            # set (DNSKEY, CDNSKEY, DS, NSEC3PARAM) over-sampled
+            tname = draw(st.sampled_from([t for t in ("TXT", "A", "DNSKEY", "DNSKEY", "CDNSKEY", "DS", "NSEC3PARAM", "MX", "SSHFP") if t in R.TYPECODES and (rdclass == 1 or t != "A")]))
         else:
             tname = "CNAME"
         rec = draw(_record(tname, {"origin": origin}, True))
@@ -1085,6 +1097,9 @@ def run_respell(case):
                 classes.append("relativize:%s" % rrel)
     if neg == "cname":
         classes.append("cname-conflict-refused")
+        for it in case["items"]:
+            if it.get("conflict"):
+                classes.append("cname-conflict-refused:" + ("dnssec-type" if it["t"] in ("DNSKEY", "CDNSKEY", "DS", "NSEC3PARAM") else "other"))
     elif neg:
         classes.append("origin-check-refused")
     if case["top_origin"] and neg is None:
@@ -1148,7 +1163,7 @@ def parts(tier):
         rs_req["rw:" + kname] = rw_min
     rs_req.update({"rw:ttl-soa-minimum": 5 if q else 80, "rw:generate-under-mid-origin": 3 if q else 50,
                    "rw:rdata-relative-under-mid-origin": 0 if q else 50, "rw:out-of-zone-inherited": 5 if q else 80,
-                   "cname-conflict-refused": 30 if q else 500, "origin-check-refused": 30 if q else 500,
+                   "cname-conflict-refused": 30 if q else 500, "cname-conflict-refused:dnssec-type": 15 if q else 250, "origin-check-refused": 30 if q else 500,
                    "owner:hostile": 100 if q else 1500, "owner:dollar": 30 if q else 400,
                    "out-of-zone-ignored": 50 if q else 1000, "read_rrsets": 200 if q else 4000, "origin-from-file": 50 if q else 1000})
     for f in _FACTORIES:
